@@ -907,10 +907,16 @@ struct Executor {
         }
         if (before) count("finish_after_completion");
         ad_set_rand_stream(op.rs ? op.rs : 1);
+        // fault kind rand_degenerate: one finish in 16 sees a legal but degenerate libc stream (derived from the stream id the
+        // plan already carries, so that plans and their PRNG draws are unchanged)
+        uint64_t rand_deg0 = ad_rand_degenerate_calls();
+        if (op.rs && op.rs % 16 == 0) ad_set_rand_mode(1 + (int)((op.rs / 16) % 4));
         status(&sc, "finish", false);
         cb_target = &sc;
         int st = ad_finish(sc.h, sc.s->id);
         cb_target = nullptr;
+        ad_set_rand_mode(0);
+        if (ad_rand_degenerate_calls() != rand_deg0) count("fault:rand_degenerate_stream_consumed");
         status_done(); res.lib_calls++;
         sc.finish_called = true; sc.finish_status = st;
         if (!rs) sc.finalised = true;              // LDPC/2D: finish is the final decoding attempt (it consumes the matrix)...
